@@ -52,6 +52,17 @@ def evalWords (ws : List String) : Option String :=
         let d := if kind == "url" then b64DecodeFast (e.map urlUnsubst) else b64DecodeFast e
         pure (toString e.length ++ " " ++ fnv64 e ++ " " ++ toString d.length ++ " " ++ fnv64 d)
     | ["alpha"] => some (bytesHex charset)
+    | ["oom", fn, arg] => do
+        -- allocation failures are the harness's business: the compared result is the undisturbed answer
+        let m ← parseBytes? arg
+        match fn with
+        | "hencp" | "hencs" | "hencb" => pure (bytesHex (hexEncodeStr m))
+        | "hdecs" | "hdecb" => pure (optHex (hexDecodeStrM m))
+        | "bencp" | "bencs" => pure (bytesHex (b64Encode m))
+        | "buencp" | "buencs" => pure (bytesHex (b64urlEncode m))
+        | "bdec" => pure (optHex (b64DecodeM m))
+        | "budec" => pure (optHex (b64urlDecodeM m))
+        | _ => none
     | ["maxsz"] => some (hexOfNat 16 strMaxSize)
     | ["hbyte", hi, lo] => do
         let h ← bvOf 8 hi; let l ← bvOf 8 lo
@@ -61,7 +72,10 @@ def evalWords (ws : List String) : Option String :=
         pure (optHex (hexDecodeM m sz c.toNat))
     | ["hthrow", size] => do
         let n ← parseHexNat? size
-        pure (if hexEncodeStrThrows n then "length_error" else "returns")
+        -- round 3b: the call breaks the routine's precondition (one mapped byte, n = 2^62..): its outcome
+        -- (`hexEncodeStrThrows n`, theorem hexEncodeStr_throws_iff) is a tag of the harness, not compared
+        let _ := hexEncodeStrThrows n
+        pure "called"
     | [op, arg] => do
         match op with
         | "half" => do let n ← bvOf 8 arg; pure (byteHex (half2hex n))
@@ -85,17 +99,21 @@ def evalWords (ws : List String) : Option String :=
             let v ← bvOf 64 arg; let t := uint64ToHex v
             pure (bytesHex t ++ " " ++ hexOfNat 16 (hexToUint64 t).toNat)
         | "x8" => do
-            let t ← parseBytes? arg; let v := hexToUint8 t
-            pure (hexOfNat 2 v.toNat ++ " " ++ bytesHex (uint8ToHex v))
+            let t ← parseBytes? arg
+            pure (match hexToUint8M t with
+              | some v => hexOfNat 2 v.toNat ++ " " ++ bytesHex (uint8ToHex v) | none => "fault")
         | "x16" => do
-            let t ← parseBytes? arg; let v := hexToUint16 t
-            pure (hexOfNat 4 v.toNat ++ " " ++ bytesHex (uint16ToHex v))
+            let t ← parseBytes? arg
+            pure (match hexToUint16M t with
+              | some v => hexOfNat 4 v.toNat ++ " " ++ bytesHex (uint16ToHex v) | none => "fault")
         | "x32" => do
-            let t ← parseBytes? arg; let v := hexToUint32 t
-            pure (hexOfNat 8 v.toNat ++ " " ++ bytesHex (uint32ToHex v))
+            let t ← parseBytes? arg
+            pure (match hexToUint32M t with
+              | some v => hexOfNat 8 v.toNat ++ " " ++ bytesHex (uint32ToHex v) | none => "fault")
         | "x64" => do
-            let t ← parseBytes? arg; let v := hexToUint64 t
-            pure (hexOfNat 16 v.toNat ++ " " ++ bytesHex (uint64ToHex v))
+            let t ← parseBytes? arg
+            pure (match hexToUint64M t with
+              | some v => hexOfNat 16 v.toNat ++ " " ++ bytesHex (uint64ToHex v) | none => "fault")
         | "benc" => do let m ← parseBytes? arg; pure (bytesHex (b64Encode m))
         | "bdec" => do let m ← parseBytes? arg; pure (optHex (b64DecodeM m))
         | "buenc" => do let m ← parseBytes? arg; pure (bytesHex (b64urlEncode m))
@@ -111,6 +129,9 @@ def stepLine (_ : Unit) (line : String) : Unit × String :=
     match words line with
     | "premain" :: _ :: "premain" :: _ => none
     | "premain" :: _ :: rest => evalWords rest
+    -- round 3b: the same battery from two more positions of the initialisation order
+    | "premainD" :: _ :: rest => if rest.head? == some "premain" then none else evalWords rest
+    | "premainG" :: _ :: rest => if rest.head? == some "premain" then none else evalWords rest
     | ws => evalWords ws
   ((), r.getD "bad-op")
 
